@@ -99,6 +99,20 @@ def streams(ctx):
                     m = (lt.hour * 60 + lt.minute + rng.choice([-1, 0, 1, 60])) % 1440
                     extra.append((zone, float(now), "%02d:%02d" % divmod(m, 60), ds))
     ctx.run_cases(NEXT, "local-weekday-differs-from-utc", extra, exhaustive=False, sample_every=101)
+    # the SAME schedule asked again later on the same local date, first while its start is still ahead, then at it, then after it:
+    # the answer must follow the clock, not an earlier answer
+    again = []
+    base = 1_750_000_000 - (1_750_000_000 % 86400)
+    for zone in ("UTC", "Asia/Jerusalem", "America/New_York", "Asia/Kathmandu"):
+        for k in range(ctx.n(12, 120)):
+            day0 = base + rng.randrange(0, 400) * 86400
+            off = int(_local(zone, day0 + 43200).utcoffset().total_seconds())
+            sm = rng.randrange(5, 1430)
+            wd = _local(zone, day0 - off + sm * 60).weekday()
+            ds = rng.choice([[wd], [wd, (wd + 1) % 7], [wd, (wd + 3) % 7], sorted({wd, rng.randrange(7), rng.randrange(7)})])
+            for delta in (-120, -60, 0, 60, 180):
+                again.append((zone, float(day0 - off + sm * 60 + delta), "%02d:%02d" % divmod(sm, 60), ds))
+    ctx.run_cases(NEXT, "same-schedule-before-at-and-after-its-start", again, exhaustive=False, sample_every=53)
     bad = [("UTC", 1.75e9, s, [0]) for s in ("7:5", "24:00", "x", "", "12:60", "1200")]
     ctx.run_cases(NEXT, "malformed-start", bad, exhaustive=False)
 
